@@ -265,7 +265,7 @@ def shrink_history(env, hist, dbg, release, pred):
 
 
 def correspond(env, searching=False, model=True):
-    n_hist = 400 if env.tier == "quick" else 20000
+    n_hist = 400 if env.tier == "quick" else 6000
     if searching:
         n_hist *= 4
     profiles = [(True, False)] if env.tier == "quick" else [(True, False), (False, True)]
